@@ -75,6 +75,9 @@ def sched_parts(pid: str, tier: str):
 
         # "nothing else runs": disabled / unreachable debug nodes and already-set-up nodes are not entered
         parts.append(Part("debug-nodes-N3", P(run_c13, GCfg(N=3, setup=False, activation=False, combined=False, reconf=False)), {"N": 3, "what": "debug nodes run only when enabled and only with their inputs available"}, 900, 5, ["w_debug_ran"], GRAPH_FUNCS))
+        from harness.graph import run_c12
+
+        parts.append(Part("selection-closure-N2", P(run_c12, GCfg(N=2, indexed=True)), {"N": 2, "what": "exactly the documented closure runs for every (R, X, T) and alias / tag style"}, 900, 5, ["w_error_case"], GRAPH_FUNCS))
         parts.append(Part("setup-histories-len3-N2", P(run_c11, HCfg(N=2, length=3, flavours="s")), {"N": 2, "length": 3, "what": "an already-set-up node is not entered again"}, 900, 8, ["w_reuse"], HIST_FUNCS))
         from harness.history import run_c15
 
@@ -121,6 +124,10 @@ def sched_parts(pid: str, tier: str):
         mk("whole-run-N3-one-fault", Cfg(N=3, resources="tma", faults=1, monitors=mons), base_req + ["w_fault"], 600)
         mk("whole-run-N3-activation", Cfg(N=3, resources="ta", activation=True, monitors=mons), base_req + ["w_deactivated"], 600)
         mk("whole-run-N3-two-faults", Cfg(N=3, resources="ta", faults=2, sym_seq=False, monitors=mons), base_req + ["w_fault"], 600)
+        from harness.graph import GCfg, run_c13
+
+        # executor construction and sub-graph runs with debug nodes terminate as well (watchdog over the graph module)
+        parts.append(Part("debug-selections-terminate-N3", P(run_c13, GCfg(N=3, setup=False, activation=False, combined=False, reconf=False)), {"N": 3, "what": "executor creation and execution for every selection / debug placement returns"}, 900, 5, ["w_debug_ran"], GRAPH_FUNCS))
         from harness.history import HCfg, run_c15
 
         # "never returns normally while a selected active node has not run": executor runs after a failed run
@@ -222,7 +229,7 @@ def dataflow_parts(pid: str, tier: str):
 
     if pid == "C01":
         mk("programs-2stmts", DCfg(focus="C01", budget=3, flavours="sa", config=True), ["w_call", "w_op", "w_sub", "w_flag", "w_deactivated"], 900, 9)
-        parts.append(Part("schedule-independence-N3", P(run_sched, Cfg(N=3, resources="tm" if q else "tma", activation=True, kwargs=True, routes="d" if q else "dc", sym_prio=not q, monitors=("C01",))),
+        parts.append(Part("schedule-independence-N3", P(run_sched, Cfg(N=3, resources="tma", max_async=1 if q else 99, activation=True, kwargs=True, routes="d" if q else "dc", sym_prio=not q, monitors=("C01",))),
                           {"N": 3, "what": "returned tuple equals the plain evaluation on every schedule / configuration"}, 900, 7, ["w_returned", "w_parallel"], SCHED_FUNCS))
         if not q:
             mk("programs-3stmts", DCfg(stmts=("s", "s", "s"), focus="C01", budget=3, flavours="sa", config=True), ["w_call", "w_op", "w_sub"], 1800)
@@ -283,6 +290,9 @@ def history_parts(pid: str, tier: str):
         parts.append(Part("histories-len2", P(run_c11, HCfg(N=3, length=2, flavours="s")), dict(b, length=2), 900, 8, ["w_reuse", "w_deepcopy", "w_setup_root_target"], HIST_FUNCS))
         parts.append(Part("histories-len2-N2-async", P(run_c11, HCfg(N=2, length=2, flavours="a")), dict(b, N=2, length=2, flavour="async"), 900, 8, ["w_reuse"], HIST_FUNCS))
         parts.append(Part("histories-len3-N2", P(run_c11, HCfg(N=2, length=3, flavours="s")), dict(b, N=2, length=3), 900, 8, ["w_reuse"], HIST_FUNCS))
+        from harness.history import run_c18
+
+        parts.append(Part("cache-restarts-N2", P(run_c18, HCfg(N=2, length=3, flavours="s")), {"N": 2, "what": "executions restarted from a cache (also one written by another instance) do not replace the value a setup node produced the first time"}, 900, 8, ["w_foreign_cache"], HIST_FUNCS))
         if not q:
             parts.append(Part("histories-len3", P(run_c11, HCfg(N=3, length=3, flavours="sa")), dict(b, length=3), 2400, 9, ["w_reuse", "w_deepcopy"], HIST_FUNCS))
             parts.append(Part("histories-len4-N2", P(run_c11, HCfg(N=2, length=4, flavours="s")), dict(b, N=2, length=4), 2400, 9, ["w_reuse"], HIST_FUNCS))
@@ -293,12 +303,12 @@ def history_parts(pid: str, tier: str):
         parts.append(Part("histories-len3-async", P(run_c15, HCfg(length=3, flavours="a")), dict(b, length="3+1", flavour="async"), 900, 8, ["w_final_call", "w_rerun_after_failure"], HIST_FUNCS))
         from harness.history import run_c18
 
-        parts.append(Part("cache-executors-single-use-N2", P(run_c18, HCfg(N=2, length=2, flavours="s")), {"N": 2, "what": "an executor started from a cache refuses a second run"}, 900, 8, ["w_deps_of_restart"], HIST_FUNCS))
+        parts.append(Part("cache-executors-N2", P(run_c18, HCfg(N=2, length=3, flavours="s")), {"N": 2, "what": "an executor started from a cache refuses a second run; a restart from another instance's cache does not change what later calls of this instance see"}, 900, 8, ["w_deps_of_restart", "w_foreign_cache"], HIST_FUNCS))
         if not q:
             parts.append(Part("histories-len4", P(run_c15, HCfg(length=4, flavours="s")), dict(b, length="4+1"), 2400, 9, ["w_final_call"], HIST_FUNCS))
     elif pid == "C18":
         b = {"N": 3, "caching selection": "whole, target=[i], cache_deps_of=[i]", "restart": "same selection or whole DAG; on the same instance or on a pristine deep copy", "setup": "first node optionally a setup node"}
-        parts.append(Part("cache-restart", P(run_c18, HCfg(N=3, length=2, flavours="sa")), dict(b, flavours="sync and async"), 900, 8, ["w_deps_of_restart", "w_deps_of_two"], HIST_FUNCS))
+        parts.append(Part("cache-restart", P(run_c18, HCfg(N=3, length=3, flavours="sa")), dict(b, flavours="sync and async", extra="restart from a cache written by another instance"), 900, 8, ["w_deps_of_restart", "w_deps_of_two", "w_foreign_cache"], HIST_FUNCS))
         parts.append(Part("cache-restart-two-rounds-N2", P(run_c18, HCfg(N=2, length=4)), dict(b, N=2, rounds="two caching runs on the same file, each followed by a restart"), 900, 8, ["w_second_round"], HIST_FUNCS))
         if not q:
             parts.append(Part("cache-restart-two-rounds", P(run_c18, HCfg(N=3, length=4)), dict(b, rounds=2), 2400, 9, ["w_second_round"], HIST_FUNCS))
